@@ -26,12 +26,11 @@ Definition rfind (m : recmap) (id : N) : option timerrec := PositiveMap.find (rk
 Definition radd (m : recmap) (id : N) (r : timerrec) : recmap := PositiveMap.add (rkey id) r m.
 Definition rdel (m : recmap) (id : N) : recmap := PositiveMap.remove (rkey id) m.
 
-(* static int compar(cookie, x, y): only reached for records in the heap (which are live) *)
-Definition reccmp (m : recmap) (x y : N) : Z :=
-  match rfind m x, rfind m y with
-  | Some a, Some b => tvcmp (r_tv a) (r_tv b)
-  | _, _ => 0%Z
-  end.
+(* static int compar(cookie, x, y): only ever called on records in the heap, which are live; the
+   timeval read through a pointer to a freed record is unspecified (here 0.0) *)
+Definition tvof (m : recmap) (x : N) : timeval :=
+  match rfind m x with Some r => r_tv r | None => {| tv_sec := 0; tv_usec := 0 |} end.
+Definition reccmp (m : recmap) (x y : N) : Z := tvcmp (tvof m x) (tvof m y).
 
 (* static void setreccookie(cookie, ptr, rc) *)
 Definition set_rc (m : recmap) (nt : note) : recmap :=
